@@ -32,17 +32,30 @@ func crashUnits(prop, tier string) []Unit {
 				budgets = []int{0}
 				o.Nested = 0
 			}
+			if w.Name == "W11-megabyte-multikey" {
+				if tier != "thorough" {
+					continue
+				}
+				budgets = []int{0}
+				o.Nested = 0
+				o.Clocks = []int{2}
+			}
 		case "C04":
 			o = crashOpts{Clocks: []int{0, 1, 2}, Atomicity: true, Nested: 1}
 			budgets = []int{0, 1}
 			if tier == "thorough" {
 				budgets = []int{0, 1, 2}
 			}
-			if w.Name != "W6-multikey-atomicity" && w.Name != "W4-multikey-straddles-rotation" && w.Name != "W7-large-multikey" && w.Name != "W8-two-committers" && w.Name != "W10-multikey-deletes-cascade" {
+			if w.Name != "W6-multikey-atomicity" && w.Name != "W4-multikey-straddles-rotation" && w.Name != "W7-large-multikey" && w.Name != "W8-two-committers" && w.Name != "W10-multikey-deletes-cascade" && w.Name != "W11-megabyte-multikey" {
 				continue
 			}
 			if w.Name == "W7-large-multikey" {
 				budgets = []int{0}
+			}
+			if w.Name == "W11-megabyte-multikey" {
+				budgets = []int{0}
+				o.Nested = 0
+				o.Clocks = []int{2}
 			}
 		case "C14":
 			o = crashOpts{Clocks: []int{2}, Torn: true, TornStep: 1, Nested: 1}
@@ -52,7 +65,7 @@ func crashUnits(prop, tier string) []Unit {
 				o.Nested = 1
 				budgets = []int{0, 1, 2}
 			}
-			if w.Name == "W6-multikey-atomicity" || w.Name == "W9-many-tables" || w.Name == "W10-multikey-deletes-cascade" {
+			if w.Name == "W6-multikey-atomicity" || w.Name == "W9-many-tables" || w.Name == "W10-multikey-deletes-cascade" || w.Name == "W11-megabyte-multikey" {
 				continue
 			}
 			if w.Name == "W7-large-multikey" {
